@@ -4,8 +4,8 @@ Property theorems only; the model is `DeapModel/Core/Variation.lean` (`varAnd`, 
 `deap/algorithms.py`), helper lemmas are in `DeapModel/Lemmas/C02.lean`.
 
 Every theorem is for ALL populations (any length, repeated oids allowed), ALL decision tapes, ALL
-operator states and ALL operator pairs meeting `OpContract` (an operator returns the individuals it
-was given and writes no other object).  "The input list itself is unchanged" holds by construction:
+operator states and ALL operator pairs meeting `OpContract` (an operator returns its arguments or objects
+it allocated itself — in-place operators as well as copy-and-return ones — and writes no other object).  "The input list itself is unchanged" holds by construction:
 `pop` is an immutable argument of the model, never part of the state that is written.
 
 Reading of the clauses in the model:
@@ -13,9 +13,11 @@ Reading of the clauses in the model:
   before the call — in particular every input — has the same genome and fitness afterwards);
 * "exactly the requested number of offspring"        → `*_count`;
 * "each an object independent of every input"        → `*_fresh`, `*_not_input`, `*_distinct`
-  (every returned oid was allocated during the call, so it is no input and no other pre-existing
-  object, and the returned oids are pairwise distinct);
-* "went through crossover or mutation ⇒ invalid"     → `*_touched_invalid`;
+  (every returned oid was allocated during the call — by `toolbox.clone` or by an operator that returns a
+  new object —, so it is no input and no other pre-existing object, and the returned oids are pairwise
+  distinct);
+* "went through crossover or mutation ⇒ invalid"     → `*_touched_invalid`: about the object that ENDS UP
+  in the offspring list, i.e. the one the operator RETURNED (not the one passed to it);
 * "valid fitness ⇒ genotype and fitness of an input" → `*_valid_is_parent_copy`.
 -/
 import DeapModel.Lemmas.C02
@@ -27,19 +29,47 @@ variable {σ : Type} {ops : Ops σ}
 
 /-! ## Concrete instances used by the `example`s -/
 
-/-- One-point-like crossover exchanging the tails, and a mutation negating every gene. -/
+/-- In-place operators (what `deap.tools` provides): one-point-like crossover exchanging the tails, and a
+mutation negating every gene; both return their arguments. -/
 def demoOps : Ops Unit where
-  mate := fun t h a b =>
+  mate := fun t h n a b =>
     ⟨t, (h.set a { h a with genome := (h a).genome.take 1 ++ (h b).genome.drop 1 }).set b
-          { h b with genome := (h b).genome.take 1 ++ (h a).genome.drop 1 }, a, b⟩
-  mutate := fun t h a => ⟨t, h.set a { h a with genome := (h a).genome.map (fun x => -x) }, a⟩
+          { h b with genome := (h b).genome.take 1 ++ (h a).genome.drop 1 }, n, a, b⟩
+  mutate := fun t h n a => ⟨t, h.set a { h a with genome := (h a).genome.map (fun x => -x) }, n, a⟩
 
 theorem demoOps_contract : OpContract demoOps where
-  mate_fst := fun _ _ _ _ => rfl
-  mate_snd := fun _ _ _ _ => rfl
-  mate_frame := fun _ h a b o ha hb => by simp [demoOps, Heap.set, ha, hb]
-  mutate_ret := fun _ _ _ => rfl
-  mutate_frame := fun _ h a o ha => by simp [demoOps, Heap.set, ha]
+  mate_next := fun _ _ _ _ _ => Nat.le_refl _
+  mate_fst := fun _ _ _ _ _ => Or.inl rfl
+  mate_snd := fun _ _ _ _ _ => Or.inr (Or.inl rfl)
+  mate_distinct := fun _ _ _ _ _ hab => hab
+  mate_frame := fun _ h _ a b o ha hb _ => by simp [demoOps, Heap.set, ha, hb]
+  mutate_next := fun _ _ _ _ => Nat.le_refl _
+  mutate_ret := fun _ _ _ _ => Or.inl rfl
+  mutate_frame := fun _ h _ a o ha _ => by simp [demoOps, Heap.set, ha]
+
+/-- Pure (copy-and-return) operators: the arguments are left as they are, the children are NEW objects that
+still carry the parents' fitness — what `gp.staticLimit` hands back when the limit rejects a child, or a
+user operator working on copies. -/
+def pureOps : Ops Unit where
+  mate := fun t h n a b =>
+    ⟨t, (h.set n { h a with genome := (h a).genome.take 1 ++ (h b).genome.drop 1 }).set (n + 1)
+          { h b with genome := (h b).genome.take 1 ++ (h a).genome.drop 1 }, n + 2, n, n + 1⟩
+  mutate := fun t h n a => ⟨t, h.set n { h a with genome := (h a).genome.map (fun x => -x) }, n + 1, n⟩
+
+theorem pureOps_contract : OpContract pureOps where
+  mate_next := fun _ _ _ _ _ => by simp [pureOps]
+  mate_fst := fun _ _ n _ _ => Or.inr (Or.inr ⟨Nat.le_refl _, by simp [pureOps]⟩)
+  mate_snd := fun _ _ n _ _ => Or.inr (Or.inr ⟨by simp [pureOps], by simp [pureOps]⟩)
+  mate_distinct := fun _ _ n _ _ _ => by simp [pureOps]
+  mate_frame := fun _ h n a b o _ _ hn => by
+    have h1 : o ≠ n := by omega
+    have h2 : o ≠ n + 1 := by omega
+    simp [pureOps, Heap.set, h1, h2]
+  mutate_next := fun _ _ _ _ => by simp [pureOps]
+  mutate_ret := fun _ _ n _ => Or.inr ⟨Nat.le_refl _, by simp [pureOps]⟩
+  mutate_frame := fun _ h n a o _ hn => by
+    have h1 : o ≠ n := by omega
+    simp [pureOps, Heap.set, h1]
 
 /-- Three individuals: evaluated, unevaluated, evaluated (a mixed population). -/
 def demoHeap : Heap := fun o =>
@@ -69,48 +99,36 @@ example : demoOr.map (fun r => [0, 1, 2].map r.st.heap) = some ([0, 1, 2].map de
 /-- the same object repeated in the population: still three distinct fresh offspring -/
 example : (varAnd demoOps () demoSt [0, 0, 0] [false] [false, true, false]).map (·.off) = some [3, 4, 5] := by
   decide
+/-- pure operators: the offspring are the objects the operators RETURNED (6, 7 from mate, then 8 from
+mutating 7), and it is their fitness that is deleted although they were copies of evaluated parents -/
+example : (varAnd pureOps () demoSt [0, 2, 2] [true] [false, true, false]).map
+    (fun r => (r.off, r.off.map r.st.heap)) =
+    some ([6, 8, 5], [⟨[1, 8, 9], none⟩, ⟨[-7, -2, -3], none⟩, ⟨[7, 8, 9], some [30]⟩]) := by decide
+example : (varOr pureOps () demoSt [0, 1, 2] 2 [Choice.cx 0 2, Choice.mutn 2]).map
+    (fun r => (r.off, r.off.map r.st.heap)) =
+    some ([5, 8], [⟨[1, 8, 9], none⟩, ⟨[-7, -8, -9], none⟩]) := by decide
 
 /-! ## varAnd -/
-
-/-- Shape of the result: the offspring are the clones made on line 68, in order — the oids
-`s.next, s.next+1, …` (one per population position, repeated parents get separate clones). -/
-theorem varAnd_offspring_oids (hc : OpContract ops) {t : σ} {s : St} {pop : List Nat}
-    {mateD mutD : List Bool} {r : Res σ} (h : varAnd ops t s pop mateD mutD = some r) :
-    r.off = List.range' s.next pop.length ∧ r.st.next = s.next + pop.length := by
-  simp only [varAnd] at h
-  split at h
-  · simp at h
-  next m hm =>
-    have hnd : (cloneAll s pop).2.Nodup := by rw [cloneAll_off]; exact List.nodup_range' 1
-    obtain ⟨hoff, hnext, _, _⟩ := mateLoop_spec hc _ _ _ _ m hnd hm
-    obtain ⟨hoff2, hnext2, _, _⟩ := mutLoop_spec hc _ _ _ _ r (hoff ▸ hnd) h
-    rw [hoff2, hoff, hnext2, hnext, cloneAll_off, cloneAll_next]
-    exact ⟨rfl, rfl⟩
-
-example : OpContract demoOps ∧ demoAnd.isSome = true := ⟨demoOps_contract, by decide⟩
 
 /-- `varAnd` returns exactly as many offspring as it was given individuals. -/
 theorem varAnd_count (hc : OpContract ops) {t : σ} {s : St} {pop : List Nat}
     {mateD mutD : List Bool} {r : Res σ} (h : varAnd ops t s pop mateD mutD = some r) :
-    r.off.length = pop.length := by
-  rw [(varAnd_offspring_oids hc h).1]; simp
+    r.off.length = pop.length := (varAnd_master hc h).1
+
+example : OpContract demoOps ∧ demoAnd.isSome = true := ⟨demoOps_contract, by decide⟩
+example : OpContract pureOps ∧ (varAnd pureOps () demoSt [0, 2, 2] [true] [false, true, false]).isSome = true :=
+  ⟨pureOps_contract, by decide⟩
+
+/-- The fresh-oid counter only grows. -/
+theorem varAnd_next_le (hc : OpContract ops) {t : σ} {s : St} {pop : List Nat}
+    {mateD mutD : List Bool} {r : Res σ} (h : varAnd ops t s pop mateD mutD = some r) :
+    s.next ≤ r.st.next := (varAnd_master hc h).2.1
 
 /-- No object that existed before the call — in particular no input individual — is modified:
 its genome and its fitness are what they were. -/
 theorem varAnd_parents_unchanged (hc : OpContract ops) {t : σ} {s : St} {pop : List Nat}
     {mateD mutD : List Bool} {r : Res σ} (h : varAnd ops t s pop mateD mutD = some r) :
-    ∀ o, o < s.next → r.st.heap o = s.heap o := by
-  intro o ho
-  simp only [varAnd] at h
-  split at h
-  · simp at h
-  next m hm =>
-    have hnd : (cloneAll s pop).2.Nodup := by rw [cloneAll_off]; exact List.nodup_range' 1
-    have hnot : o ∉ (cloneAll s pop).2 := by
-      rw [cloneAll_off, List.mem_range'_1]; omega
-    obtain ⟨hoff, _, hfr, _⟩ := mateLoop_spec hc _ _ _ _ m hnd hm
-    obtain ⟨_, _, hfr2, _⟩ := mutLoop_spec hc _ _ _ _ r (hoff ▸ hnd) h
-    rw [hfr2 o (hoff ▸ hnot), hfr o hnot, cloneAll_frame _ _ _ ho]
+    ∀ o, o < s.next → r.st.heap o = s.heap o := (varAnd_master hc h).2.2.1
 
 /-- … stated for the inputs: every individual of the given population is unchanged. -/
 theorem varAnd_inputs_unchanged (hc : OpContract ops) {t : σ} {s : St} {pop : List Nat}
@@ -118,14 +136,10 @@ theorem varAnd_inputs_unchanged (hc : OpContract ops) {t : σ} {s : St} {pop : L
     (h : varAnd ops t s pop mateD mutD = some r) : ∀ p ∈ pop, r.st.heap p = s.heap p :=
   fun p hp => varAnd_parents_unchanged hc h p (hpop p hp)
 
-/-- Every returned oid was allocated during this call. -/
+/-- Every returned oid was allocated during this call (by `toolbox.clone` or by an operator). -/
 theorem varAnd_fresh (hc : OpContract ops) {t : σ} {s : St} {pop : List Nat}
     {mateD mutD : List Bool} {r : Res σ} (h : varAnd ops t s pop mateD mutD = some r) :
-    ∀ o ∈ r.off, s.next ≤ o ∧ o < r.st.next := by
-  obtain ⟨hoff, hnext⟩ := varAnd_offspring_oids hc h
-  intro o ho
-  rw [hoff, List.mem_range'_1] at ho
-  omega
+    ∀ o ∈ r.off, s.next ≤ o ∧ o < r.st.next := (varAnd_master hc h).2.2.2.1
 
 /-- No offspring is an input individual (this is what F1 broke for `varOr`). -/
 theorem varAnd_not_input (hc : OpContract ops) {t : σ} {s : St} {pop : List Nat}
@@ -136,60 +150,26 @@ theorem varAnd_not_input (hc : OpContract ops) {t : σ} {s : St} {pop : List Nat
   have := hpop o hin
   omega
 
-/-- The offspring are pairwise distinct objects. -/
+/-- The offspring are pairwise distinct objects (uses that `mate` returns two different individuals). -/
 theorem varAnd_distinct (hc : OpContract ops) {t : σ} {s : St} {pop : List Nat}
     {mateD mutD : List Bool} {r : Res σ} (h : varAnd ops t s pop mateD mutD = some r) :
-    r.off.Nodup := by
-  rw [(varAnd_offspring_oids hc h).1]; exact List.nodup_range' 1
+    r.off.Nodup := (varAnd_master hc h).2.2.2.2.1
 
-/-- Core per-offspring fact: offspring `k` either went through `mate`/`mutate` and has no fitness,
-or went through neither and is an exact copy (genome and fitness) of input `k`. -/
+/-- Core per-offspring fact about the object `o` that ENDS UP at position `k` of the returned list: if
+position `k` went through `mate`/`mutate`, `o` — the object the operator returned, whether or not it is the
+one that was passed in — has no fitness; if it went through neither, `o` is an exact copy (genome and
+fitness) of input `k`. -/
 theorem varAnd_offspring_spec (hc : OpContract ops) {t : σ} {s : St} {pop : List Nat}
     {mateD mutD : List Bool} {r : Res σ} (hpop : ∀ p ∈ pop, p < s.next)
     (h : varAnd ops t s pop mateD mutD = some r) (k : Nat) (hk : k < pop.length) :
-    r.off[k]? = some (s.next + k) ∧
-    ((wasMated mateD pop.length k = true ∨ mutD[k]? = some true) →
-        (r.st.heap (s.next + k)).fit = none) ∧
-    ((wasMated mateD pop.length k = false ∧ mutD[k]? = some false) →
-        r.st.heap (s.next + k) = s.heap pop[k]) ∧
+    ∃ o, r.off[k]? = some o ∧
+    ((wasMated mateD pop.length k = true ∨ mutD[k]? = some true) → (r.st.heap o).fit = none) ∧
+    ((wasMated mateD pop.length k = false ∧ mutD[k]? = some false) → r.st.heap o = s.heap pop[k]) ∧
     (mutD[k]? = some true ∨ mutD[k]? = some false) := by
-  have hoffs := (varAnd_offspring_oids hc h).1
-  simp only [varAnd] at h
-  split at h
-  · simp at h
-  next m hm =>
-    have hnd : (cloneAll s pop).2.Nodup := by rw [cloneAll_off]; exact List.nodup_range' 1
-    obtain ⟨hoff, _, _, hidx⟩ := mateLoop_spec hc _ _ _ _ m hnd hm
-    obtain ⟨_, _, _, hidx2⟩ := mutLoop_spec hc _ _ _ _ r (hoff ▸ hnd) h
-    have hlen : (cloneAll s pop).2.length = pop.length := by rw [cloneAll_off]; simp
-    have hk1 : k < (cloneAll s pop).2.length := by omega
-    have hk2 : k < m.off.length := by rw [hoff]; exact hk1
-    have hel : (cloneAll s pop).2[k] = s.next + k := by simp [cloneAll_off]
-    have hel2 : m.off[k] = s.next + k := by simp [hoff, hel]
-    have h1 := hidx k hk1
-    have h2 := hidx2 k hk2
-    rw [hel, hlen] at h1
-    rw [hel2] at h2
-    have hmut : mutD[k]? = some true ∨ mutD[k]? = some false := by
-      -- the mutation loop finished, so it had a decision for index k
-      have hlen' : m.off.length ≤ mutD.length := by
-        rcases Nat.lt_or_ge mutD.length m.off.length with hlt | hge
-        · rw [mutLoop_none_of_short ops _ _ _ _ hlt] at h
-          simp at h
-        · exact hge
-      have hk3 : k < mutD.length := by omega
-      rw [List.getElem?_eq_getElem hk3]
-      cases mutD[k] <;> simp
-    refine ⟨?_, ?_, ?_, hmut⟩
-    · rw [hoffs]; simp [hk]
-    · rintro (hmated | hmutd)
-      · rcases hmut with hm1 | hm0
-        · exact h2.1 hm1
-        · rw [h2.2 hm0]; exact h1.1 hmated
-      · exact h2.1 hmutd
-    · rintro ⟨hnm, hnu⟩
-      rw [h2.2 hnu, h1.2 hnm]
-      exact cloneAll_copy s pop hpop k hk
+  obtain ⟨hlen, _, _, _, _, hidx⟩ := varAnd_master hc h
+  have hk' : k < r.off.length := by omega
+  obtain ⟨h1, h2, h3⟩ := hidx k hk hk'
+  exact ⟨r.off[k], List.getElem?_eq_getElem hk', h1, h2 hpop, h3⟩
 
 /-- Every offspring that went through a crossover or a mutation comes back with an invalid fitness. -/
 theorem varAnd_touched_invalid (hc : OpContract ops) {t : σ} {s : St} {pop : List Nat}
@@ -200,7 +180,7 @@ theorem varAnd_touched_invalid (hc : OpContract ops) {t : σ} {s : St} {pop : Li
   have hk : k < pop.length := by
     have := (List.getElem?_eq_some_iff.1 ho).1
     rw [varAnd_count hc h] at this; exact this
-  obtain ⟨h1, h2, _, _⟩ := varAnd_offspring_spec hc hpop h k hk
+  obtain ⟨o', h1, h2, _, _⟩ := varAnd_offspring_spec hc hpop h k hk
   rw [h1] at ho
   cases ho
   exact h2 htouched
@@ -216,7 +196,7 @@ theorem varAnd_untouched_is_clone (hc : OpContract ops) {t : σ} {s : St} {pop :
     (hun : wasMated mateD pop.length k = false ∧ mutD[k]? = some false) :
     r.st.heap o = s.heap p := by
   obtain ⟨hk, hpk⟩ := List.getElem?_eq_some_iff.1 hp
-  obtain ⟨h1, _, h3, _⟩ := varAnd_offspring_spec hc hpop h k hk
+  obtain ⟨o', h1, _, h3, _⟩ := varAnd_offspring_spec hc hpop h k hk
   rw [h1] at ho
   cases ho
   rw [h3 hun, hpk]
@@ -231,18 +211,17 @@ theorem varAnd_valid_is_parent_copy (hc : OpContract ops) {t : σ} {s : St} {pop
   have hk : k < pop.length := by
     have := (List.getElem?_eq_some_iff.1 ho).1
     rw [varAnd_count hc h] at this; exact this
-  obtain ⟨h1, h2, h3, h4⟩ := varAnd_offspring_spec hc hpop h k hk
+  obtain ⟨o', h1, h2, h3, h4⟩ := varAnd_offspring_spec hc hpop h k hk
   rw [h1] at ho
   cases ho
-  have hcopy : r.st.heap (s.next + k) = s.heap pop[k] := by
-    apply h3
+  have hcopy := h3 (by
     constructor
     · cases hw : wasMated mateD pop.length k with
       | false => rfl
       | true => rw [h2 (Or.inl hw)] at hf; simp at hf
     · rcases h4 with h4 | h4
       · rw [h2 (Or.inr h4)] at hf; simp at hf
-      · exact h4
+      · exact h4)
   refine ⟨pop[k], List.getElem?_eq_getElem hk, hcopy, ?_⟩
   rw [hcopy, varAnd_parents_unchanged hc h _ (hpop _ (List.getElem_mem hk))]
 
@@ -257,8 +236,10 @@ theorem varAnd_isSome (t : σ) (s : St) (pop : List Nat) (mateD mutD : List Bool
   · next hn => simp [hn] at h1
   next m hm' =>
     have hnd : (cloneAll s pop).2.Nodup := by rw [cloneAll_off]; exact List.nodup_range' 1
-    obtain ⟨hoff, _, _, _⟩ := mateLoop_spec hc _ _ _ _ m hnd hm'
-    exact mutLoop_isSome ops _ _ _ _ (by rw [hoff, cloneAll_off]; simp; omega)
+    have hll : ∀ x ∈ (cloneAll s pop).2, x < (cloneAll s pop).1.next := by
+      intro x hx; rw [cloneAll_off, List.mem_range'_1] at hx; rw [cloneAll_next]; omega
+    obtain ⟨o1, _⟩ := mateLoop_spec hc _ _ _ _ m hnd hll hm'
+    exact mutLoop_isSome ops _ _ _ _ (by rw [o1.len, cloneAll_off]; simp; omega)
 
 /-- The decisions decoded from the recorded `random()` results have exactly these lengths. -/
 theorem decodeAnd_lengths (cxpb mutpb : Float) (n : Nat) (draws : List Float) (m u : List Bool)
